@@ -324,20 +324,7 @@ fn cross_check_world_b(scn: &DebugScenario, base: &crate::world_a::Outcome, repo
         report.count("processes", 1);
         report.hit(&format!("fault:real_process_delivery_{}", name));
         // Everything after the `Running` line is the session (the lines before name the file)
-        let cut = |out: &[u8]| -> Vec<u8> {
-            let marker = b"Running emitted binary\n";
-            match out.windows(marker.len()).position(|w| w == marker) {
-                Some(at) => {
-                    let rest = &out[at + marker.len()..];
-                    let done = b"   Completed target ";
-                    match rest.windows(done.len()).rposition(|w| w == done) {
-                        Some(end) => rest[..end].to_vec(),
-                        None => rest.to_vec(),
-                    }
-                }
-                None => out.to_vec(),
-            }
-        };
+        let cut = |out: &[u8]| -> Vec<u8> { crate::world_b::program_output(out).unwrap_or_else(|| out.to_vec()) };
         let stdout = cut(&p.stdout);
         let label = p.label();
         if let Some(status) = expected_status {
